@@ -1029,7 +1029,7 @@ func hookClasses() []hookClass {
 		{"whitespace-only", 0, false, func(h string) []placed { return fileAt("\n \t\n\n", 0755) }},
 		{"current", 0, true, func(h string) []placed { return fileAt(curTemplate(h)+"\n", 0755) }},
 		{"old1", 0, true, func(h string) []placed { return fileAt(inst(tmplOld1, h)+"\n", 0755) }},
-		{"old2", 0, false, func(h string) []placed { return fileAt(inst(tmplOld2, h)+"\n", 0755) }},
+		{"old2", 1, false, func(h string) []placed { return fileAt(inst(tmplOld2, h)+"\n", 0755) }},
 		{"old3", 1, false, func(h string) []placed { return fileAt(inst(tmplOld3, h)+"\n", 0755) }},
 		{"prepush-old-a", 0, false, func(h string) []placed { return fileAt(prePushOnlyOld[0]+"\n", 0755) }},
 		{"prepush-old-e", 1, false, func(h string) []placed { return fileAt(prePushOnlyOld[4]+"\n", 0755) }},
@@ -1045,7 +1045,7 @@ func hookClasses() []hookClass {
 		{"current-crlf", 0, false, func(h string) []placed {
 			return fileAt(strings.ReplaceAll(curTemplate(h)+"\n", "\n", "\r\n"), 0755)
 		}},
-		{"current-trailing-blank-lines", 0, false, func(h string) []placed { return fileAt(curTemplate(h)+strings.Repeat("\n", 50), 0755) }},
+		{"current-trailing-blank-lines", 1, false, func(h string) []placed { return fileAt(curTemplate(h)+strings.Repeat("\n", 50), 0755) }},
 		{"user-script", 0, true, func(h string) []placed { return fileAt("#!/bin/sh\n"+userLines(h), 0755) }},
 		{"user-script-with-lfs-line", 0, false, func(h string) []placed {
 			return fileAt("#!/bin/sh\necho mine\ngit lfs "+h+" \"$@\"\n", 0755)
@@ -1076,7 +1076,7 @@ func hookClasses() []hookClass {
 			return fileAt(curTemplate(h)+"\n"+t[2]+"\n", 0755)
 		}},
 		{"old2-then-user-lines", 1, false, func(h string) []placed { return fileAt(inst(tmplOld2, h)+"\n"+userLines(h), 0755) }},
-		{"user-lines-then-current", 0, false, func(h string) []placed {
+		{"user-lines-then-current", 1, false, func(h string) []placed {
 			return fileAt("#!/bin/sh\necho first\n"+strings.TrimPrefix(curTemplate(h), "#!/bin/sh\n")+"\n", 0755)
 		}},
 		{"template-of-other-hook", 0, false, func(h string) []placed { return fileAt(curTemplate(otherHook(h))+"\n", 0755) }},
@@ -1097,7 +1097,7 @@ func hookClasses() []hookClass {
 			return fileAt("#!/bin/sh\n"+strings.Repeat("# a comment line of a long user hook\n", 40)+userLines(h), 0755)
 		}},
 		{"user-script-nonexec", 0, false, func(h string) []placed { return fileAt("#!/bin/sh\n"+userLines(h), 0644) }},
-		{"current-nonexec", 0, false, func(h string) []placed { return fileAt(curTemplate(h)+"\n", 0644) }},
+		{"current-nonexec", 1, false, func(h string) []placed { return fileAt(curTemplate(h)+"\n", 0644) }},
 		{"symlink-to-user-script", 0, true, func(h string) []placed {
 			return []placed{{"", ent{Kind: 'l', Mode: 0777, Link: rootPH + "/" + scriptsDir + "/" + h + ".sh"}},
 				{"@script", ent{Kind: 'f', Mode: 0755, Data: "#!/bin/sh\n" + userLines(h)}}}
@@ -1848,7 +1848,7 @@ func TestVerifC20(t *testing.T) {
 		os.Exit(2)
 	}
 
-	deadline := c.DeadlineAfter(6*time.Minute, 24*time.Minute)
+	deadline := c.DeadlineAfter(8*time.Minute, 28*time.Minute)
 	only := os.Getenv("VERIF_ONLY")
 	var vparts []vx.Part
 	var infos []bfsInfo
